@@ -450,7 +450,7 @@ pub fn main(twins: &'static [Twin]) {
                         ("replay", esc(&format!("--only {} --plan {}", t.id, pstr))),
                     ]));
                 }
-            } else if samples.len() < 2 && nt && runs % 53 == 1 {
+            } else if nt && (samples.is_empty() || (samples.len() < 2 && runs % 53 == 1)) {
                 samples.push(obj(&[
                     ("macro", esc(&format!("{}! {{ {} }}", t.kind, t.text))),
                     ("reference", esc(t.reference)),
